@@ -587,8 +587,9 @@ def run(ctx):
         for r in recs_cache_history(vc, nid, ["get_Nonzero_EW_Hs_S", "get_Windmeier_EW_Hs_S"][(hi + ctx.seed) % 2], h, rng):
             add(r)
     qs = ctx.pick([0.5, 0.9, 0.99, 0.999, 0.9999], [0.1, 0.5, 0.9, 0.99, 0.999, 0.9999, 0.99999])
-    for name, base, tr in models[:ctx.pick(2, 6)]:
-        for q in qs:
+    for mi, (name, base, tr) in enumerate(models[:ctx.pick(2, 6)]):
+        # quick: the full quantile ladder for the first model, the two ends for the second
+        for q in (qs if (mi == 0 or not ctx.quick) else [qs[0], qs[-1]]):
             add(rec_cond(vc, nid(), name, base, tr, q, rng))
     for name, base, tr, q in narrow_models(vc, rng, ctx.pick(0, 16)):
         add(rec_cond(vc, nid(), name, base, tr, q, rng))
